@@ -9,7 +9,7 @@ import torchtt
 import torchtt._division as DV
 from common import Case, dense_tokens, core_tokens, out_dense, tt_tokens, num_str
 from gen import int_tensor, dense_of, rand_tt, rand_ranks, exact_equal
-from util import J, boxed, chk_tt
+from util import J, boxed, chk_tt, sdiv_inexact_cases
 
 LEVEL = "proof"
 C_DIV = 10.0
@@ -79,6 +79,7 @@ def kernel_cases(rng, tier):
         dx = dense_of(x)
         box, impl = boxed(lambda x=x, q=q: x / q)
         cases.append(Case(J("sdiv", tt_tokens(x), num_str(float(q))), impl, chk_tt(box, lambda dx=dx, q=q: dx / q, tn.float64, list(x.R), N), "scalar-division/d%d" % d, True))
+        cases += sdiv_inexact_cases(rng, x, tn.float64, "d%d" % d, 2)
     return cases
 
 
